@@ -195,7 +195,7 @@ fn ctx_json(ctx: &CodegenContext, want: &Want) -> Value {
                 Some(sp) => guarded(|| span_json(cm, sp)).unwrap_or_else(|p| json!({ "panic": p })),
                 None => Value::Null,
             };
-            syms.push(json!({"path": path, "ty": format!("{:?}", s.ty), "kind": kind, "val": val,
+            syms.push(json!({"path": path, "ty": format!("{:?}", s.ty), "kind": kind, "val": val, "pass": s.pass_idx,
                 "span": span, "segment": s.segment.as_ref().map(|x| x.as_str().to_string())}));
         }
         out.insert("symbols".into(), Value::Array(syms));
